@@ -127,6 +127,8 @@ def work(k, q, args, lock):
                 result = "suite-only"
                 fails = [l for l in out.splitlines() if l.startswith("--- FAIL") or l.startswith("FAIL") or l.startswith("panic:")]
                 detail = "; ".join(fails[:3])[:200]
+            elif args.no_late:
+                result = "SURVIVOR(targeted)"
             else:
                 for cid in ALL:
                     if cid in first:
@@ -155,6 +157,7 @@ def main():
     ap.add_argument("--limit", type=int, default=10**9)
     ap.add_argument("--files", default="")
     ap.add_argument("--seed", type=int, default=1)
+    ap.add_argument("--no-late", action="store_true", help="do not run the non-targeted checks on mutants that survive the targeted ones and the suite")
     args = ap.parse_args()
     rc, out = sh("go build -o /tmp/mutgen .", cwd=f"{VERIF}/mut/mutgen")
     assert rc == 0, out
